@@ -662,8 +662,8 @@ def readArgs (g : GenericSpec) (sourceName decimalSeparator : Y) : Except PyExc 
 
 /-! ### the model is written over the constants the sources have NOW (a change there stops the build) -/
 
-example : ConfigTables.REMOVED_SOURCE_KEYS =
-    [['a', 'c', 'c', 'o', 'u', 'n', 't', '_', 't', 'y', 'p', 'e'], ['s', 'k', 'i', 'p', '_', 'n', 'e', 'g', 'a', 't', 'i', 'v', 'e']] := by decide
+example : ConfigTables.REMOVED_SOURCE_KEYS.length = 2 ∧ "account_type".toList ∈ ConfigTables.REMOVED_SOURCE_KEYS ∧
+    "skip_negative".toList ∈ ConfigTables.REMOVED_SOURCE_KEYS := by decide +kernel
 example : ConfigTables.APPLIED_KEYS = [kDelimiter, kHasHeader, kNegateAmount, "tags_from_fields".toList] := by decide +kernel
 example : ConfigTables.SOURCE_KEYS_READ = ["account_type".toList, kColumns, kDelimiter, kFile, kFormat, kHasHeader, kName,
     kNegateAmount, "skip_negative".toList, kSupplemental, "tags_from_fields".toList, kType] := by decide +kernel
